@@ -360,7 +360,7 @@ class Interp:
             if r is not None and self.is_interp_class(r[1]):
                 return self.bind_class_attr(v, r[0], r[1], name)
             return ModelMethod(v, name)
-        if isinstance(v, (list, dict, set, tuple)) or type(v).__name__ in ("SymList", "SymDict"):
+        if isinstance(v, (list, dict, set, tuple)) or type(v).__name__ in ("SymList", "SymDict", "SMap"):
             return ModelMethod(v, name)
         # concrete python object
         if not isinstance(v, type) and self.is_interp_class(type(v)) and not isinstance(v, enum.Enum):
@@ -680,6 +680,10 @@ class Interp:
             # function is proved to satisfy that contract by its own lemmas
             self.contracts_used.add(f"{f.__module__}:{f.__qualname__} -> {stubs[f].__module__}:{stubs[f].__qualname__}")
             f = stubs[f]
+        if not isinstance(f, IFunc):
+            w = getattr(f, "__wrapped__", None)
+            if w is not None and f.__code__.co_filename.endswith("contextlib.py") and self.is_interp_func(w):
+                return CtxGen(w, list(args), kwargs, defcls)
         if self.registry is not None and not isinstance(f, IFunc):
             c = self.registry.contract_for(f, defcls)
             if c is not None and not self.registry.is_under_verification(f):
